@@ -88,11 +88,34 @@ pub fn constant(v: f64) -> Dist {
 
 const U64MAXF: f64 = 18446744073709551615.0;
 
+thread_local! {
+    /// "slow world": factor applied to the simulator-commensurate (small) timeouts and durations, so that the
+    /// same shapes of machines are also met at time scales beyond 2^32 microseconds
+    static TIME_MULT: std::cell::Cell<f64> = const { std::cell::Cell::new(1.0) };
+}
+
+/// Run a generator with all small timeouts and durations multiplied by `m`.
+pub fn with_time_mult<T>(m: f64, f: impl FnOnce() -> T) -> T {
+    struct Reset;
+    impl Drop for Reset {
+        fn drop(&mut self) {
+            TIME_MULT.with(|c| c.set(1.0));
+        }
+    }
+    let _reset = Reset;
+    TIME_MULT.with(|c| c.set(m));
+    f()
+}
+
+fn time_mult() -> f64 {
+    TIME_MULT.with(|c| c.get())
+}
+
 fn const_for(r: &mut Xo, u: DistUse, small: bool) -> f64 {
     match u {
         DistUse::Timeout | DistUse::Duration => {
             if small {
-                *r.pick(&[0.0, 0.0, 1.0, 2.0, 3.0, 5.0, 10.0, 50.0, 100.0, 1000.0, 20000.0])
+                *r.pick(&[0.0, 0.0, 1.0, 2.0, 3.0, 5.0, 10.0, 50.0, 100.0, 1000.0, 20000.0]) * time_mult()
             } else {
                 *r.pick(&[
                     0.0,
@@ -133,7 +156,7 @@ pub fn wild_dist(r: &mut Xo, u: DistUse, allow_binomial: bool, small: bool) -> D
         let scale_hi: f64 = match u {
             DistUse::Timeout | DistUse::Duration => {
                 if small {
-                    *r.pick(&[5.0, 50.0, 1000.0, 20000.0])
+                    *r.pick(&[5.0, 50.0, 1000.0, 20000.0]) * time_mult()
                 } else {
                     *r.pick(&[10.0, 1.0e4, 1.0e7, 1.0e12, 1.0e30, 1.0e300])
                 }
@@ -621,4 +644,41 @@ pub fn fmt_events(ev: &[TriggerEvent]) -> String {
         }
     }
     s
+}
+
+/// A machine that never does anything: one state, no transitions, no action.
+pub fn inert_machine() -> Machine {
+    Machine::new(0, 0.0, 0, 0.0, vec![State::new(enum_map::enum_map! { _ => vec![] })]).expect("the inert machine is valid")
+}
+
+/// Wide frameworks, so that the same behaviours are also met at machine indices beyond 32, 255 and 65 535.
+/// Layout 0: the generated line-up repeated (copies act in step with their originals, identical machines a
+/// fixed distance apart); layout 1: inert machines first, the generated ones at the very end (the only
+/// machines that act sit at the highest indices); layout 2: the generated ones at the start and once more
+/// `width - n` positions further on, inert machines in between (every acting machine has exactly one twin,
+/// at a distance of 32, 64, 256 or 65 536 when the width is chosen so).
+pub fn widen(machines: Vec<Machine>, width: usize, layout: u64) -> Vec<Machine> {
+    let n = machines.len();
+    if n == 0 || width <= n {
+        return machines;
+    }
+    match layout % 3 {
+        0 => (0..width).map(|i| machines[i % n].clone()).collect(),
+        1 => (0..width).map(|i| if i >= width - n { machines[i - (width - n)].clone() } else { inert_machine() }).collect(),
+        _ => (0..width + n)
+            .map(|i| if i < n { machines[i].clone() } else if i >= width { machines[i - width].clone() } else { inert_machine() })
+            .collect(),
+    }
+}
+
+/// Width and layout of the framework for case `case`: two cases per 32768 are wider than 2^16 machines (the
+/// acting machines at indices beyond 65 535, or with a twin exactly 65 536 positions away), one in 128 is wider
+/// than 32, the rest as generated.
+pub fn wide_width(r: &mut Xo, case: u64) -> Option<(usize, u64)> {
+    match case % 32768 {
+        1 => Some((*r.pick(&[65_540usize, 65_600]), 1)),
+        2 => Some((65_536, 2)),
+        _ if r.chance(1, 128) => Some((*r.pick(&[32usize, 33, 40, 64, 65, 100, 256, 257, 300]), r.below(3))),
+        _ => None,
+    }
 }
